@@ -46,6 +46,7 @@ type G struct {
 	intVars []string
 	nVar    int
 	noFault int
+	noBrace int // >0 inside an embedded-string part: the lexer cannot nest `{`..`}` there
 	budget  int
 }
 
@@ -436,6 +437,8 @@ func (g *G) anyExpr(depth int, role string) *N {
 	case 5:
 		e := &N{K: KEmb}
 		n := 1 + g.t.Intn(3)
+		g.noBrace++
+		defer func() { g.noBrace-- }()
 		for i := 0; i < n; i++ {
 			e.L = append(e.L, g.intExpr(depth-1, "emb/part"))
 			e.Lits = append(e.Lits, []string{"", "a", "-"}[g.t.Intn(3)])
@@ -531,7 +534,7 @@ func (g *G) userCall(depth int, needInt bool) *N {
 		}
 	}
 	if len(cs) == 0 {
-		if g.t.Chance(1, 2) {
+		if g.noBrace == 0 && g.t.Chance(1, 2) {
 			// immediately invoked literal
 			np := g.t.Intn(3)
 			c := &N{K: KCall, A: g.funcLit(np, nil, false, needInt || g.t.Chance(1, 2), depth, nil)}
@@ -570,7 +573,11 @@ func (g *G) scalarChain(depth int, needInt bool, role string) *N {
 		defer func() { g.noFault-- }()
 	}
 	recv := g.intExpr(depth, "chain/recv")
-	switch g.t.Pick(3, 2, 2) {
+	w0 := 3
+	if g.noBrace > 0 {
+		w0 = 0
+	}
+	switch g.t.Pick(w0, 2, 2) {
 	case 0:
 		// the callee body is enclosed by the handler: faults allowed again
 		nf := g.noFault
@@ -659,7 +666,7 @@ func (g *G) reduceChain(depth int, role string) *N {
 	}
 	recv := g.intArr(depth, 0, "chain/recv")
 	init := g.intExpr(depth, "chain/chainarg")
-	if g.t.Chance(1, 2) {
+	if g.noBrace == 0 && g.t.Chance(1, 2) {
 		nf := g.noFault
 		g.noFault = 0
 		f := g.funcLit(2, nil, false, true, depth, []string{"acc", "x"})
